@@ -52,6 +52,7 @@ type HarnessRun struct {
 	active     int
 	cond       *sync.Cond
 	Paths      int64
+	NonTrivial int64 // completed paths on which at least one obligation was checked
 	Branches   int64
 	Ends       map[string]int
 	EndMsgs    map[string]string
@@ -286,6 +287,9 @@ func (h *HarnessRun) runPath(s *Solver, w work) {
 	r.wg.Wait()
 	h.mu.Lock()
 	h.Paths++
+	if endKind == "done" && r.nAsserts > 0 {
+		h.NonTrivial++
+	}
 	h.Ends[endKind]++
 	if endMsg != "" && h.EndMsgs[endKind] == "" {
 		h.EndMsgs[endKind] = endMsg
